@@ -48,6 +48,11 @@ CHECKS = {
     note="pytools.UniqueNameGenerator is third-party: modelled (regex on ASCII, numbered candidates) and validated by the correspondence run. Four known findings (over-long Fortran names, function identifiers without sanitising prefix in both targets, IR names starting with 'dagrt_') are exactly the clauses of the property that are false on the code and are therefore not theorems; the case-insensitivity defect was repaired by a fix: commit.",
     technique="Lean 4 proof (invariants over the look-up history, pigeonhole, list/string lemmas) over hand-written model; exhaustive short-name + random differential correspondence; direct legality/distinctness/stability oracle on the real managers",
     ref="7/C13"),
+ "C18": dict(
+    text="Lean 4 theorems for EVERY expression whose variables avoid the fresh supply, every choice of free variables, every integer valuation and every interpretation of function symbols (and of all non-arithmetic operators), over the model of collapse_constants: evaluating the rewritten expression in the valuation extended by the hoisted assignments equals evaluating the original (mutual structural induction with a compositional state-transformer predicate; regrouping of sums/products by commutativity/associativity); every hoisted right-hand side is classified constant and a constant expression mentions no free variable; the new variables are exactly h0..h(n-1), pairwise different, each assigned once; atoms are unchanged. Correspondence: rewritten expression and ordered assignment list of the real function on ALL expressions of <= 4 nodes over {+, *, f(.), **2, x, y, 2} x all free-variable subsets, plus random deep expressions with keyword arguments, quotients, subscripts, free function symbols.",
+    note="Value claim is for commutative arithmetic (integers); a non-commutative product would be reordered by the code. The fresh-variable supply is assumed fresh (NoH). Function symbols are treated as variables by the constant classifier, as coded. The root expression is not itself replaced when it is a constant call/power (IdentityMapper.__call__ bypasses the overridden rec) - modelled as coded, harmless for the property.",
+    technique="Lean 4 proof (mutual structural induction, compositional transformer predicate) over hand-written model; exhaustive small-scope + random differential correspondence; evaluation/closedness/single-assignment oracle on the real callbacks",
+    ref="7/C18"),
 }
 
 NOT_APPLICABLE = {}
